@@ -20,13 +20,42 @@ theorem newOK_assign {P : Pods} {k : Key} {a : Attr} (r : Rec) (ts : Nat) (_h : 
 structure Safe (P : Pods) (s : State) : Prop where
   own : ∀ q, LiveBound P q → ∀ h, h ∈ q.handed →
     ∃ r, Tbl.get s.alloc h.ip = some r ∧ r.key = keyOf q ∧ r.uid = q.uid
+  -- an administrator's reservation is in the record table, under its own (non-pod) key
+  admin : ∀ ip r, Tbl.get s.admin ip = some r → Tbl.get s.alloc ip = some r ∧ r.key.isAdmin = true
 
 theorem Safe.evolves {P : Pods} {s s' : State} (h : Safe P s) (e : Evolves P s s') : Safe P s' := by
-  refine ⟨fun q hq hd hmem => ?_⟩
-  obtain ⟨r, hr, hk, hu⟩ := h.own q hq hd hmem
-  rcases e.recs hd.ip with e1 | c1
-  · exact ⟨r, by rw [e1]; exact hr, hk, hu⟩
-  · exact absurd ⟨q, hq, hk.symm⟩ (c1.1 r hr)
+  refine ⟨fun q hq hd hmem => ?_, fun ip r hr => ?_⟩
+  · obtain ⟨r, hr, hk, hu⟩ := h.own q hq hd hmem
+    rcases e.recs hd.ip with e1 | c1
+    · exact ⟨r, by rw [e1]; exact hr, hk, hu⟩
+    · exact absurd (Or.inl ⟨q, hq, hk.symm⟩) (c1.1 r hr)
+  · rw [e.frame.admin] at hr
+    obtain ⟨ha, hk⟩ := h.admin ip r hr
+    rcases e.recs ip with e1 | c1
+    · exact ⟨by rw [e1]; exact ha, hk⟩
+    · exact absurd (Or.inr hk) (c1.1 r ha)
+
+/-- no pod's key is the key of an administrator's reservation -/
+theorem keyOf_not_admin (q : Pod) : (keyOf q).isAdmin = false := by
+  have h1 : Generated.Plugin.statefulsetPrefixKey ≠ "" := by decide
+  have h2 : Generated.Plugin.deploymentPrefixKey ≠ "" := by decide
+  have h3 : Generated.Plugin.noRefAppTypePrefix ≠ "" := by decide
+  unfold keyOf mkKey Key.isAdmin
+  cases q.kind <;> simp [Kind.prefix] <;> (repeat' split) <;> simp_all [Key.empty]
+
+theorem keyOf_poolPrefix_not_admin (q : Pod) : (keyOf q).poolPrefix.isAdmin = false := by
+  have h1 : Generated.Plugin.statefulsetPrefixKey ≠ "" := by decide
+  have h2 : Generated.Plugin.deploymentPrefixKey ≠ "" := by decide
+  have h3 : Generated.Plugin.noRefAppTypePrefix ≠ "" := by decide
+  unfold keyOf mkKey Key.poolPrefix Key.isAdmin
+  cases q.kind <;> simp [Kind.prefix] <;> (repeat' split) <;> simp_all [Key.empty]
+
+theorem keyOf_poolAppPrefix_not_admin (q : Pod) : (keyOf q).poolAppPrefix.isAdmin = false := by
+  have h1 : Generated.Plugin.statefulsetPrefixKey ≠ "" := by decide
+  have h2 : Generated.Plugin.deploymentPrefixKey ≠ "" := by decide
+  have h3 : Generated.Plugin.noRefAppTypePrefix ≠ "" := by decide
+  unfold keyOf mkKey Key.poolAppPrefix Key.poolPrefix Key.isAdmin
+  cases q.kind <;> simp [Kind.prefix] <;> (repeat' split) <;> simp_all [Key.empty]
 
 /-- records are only created under / refreshed within key `K`, always with uid `u` -/
 structure Touched (K : Key) (u : Uid) (s s' : State) : Prop where
@@ -50,15 +79,23 @@ theorem Touched.trans {K : Key} {u : Uid} {a b c : State} (h1 : Touched K u a b)
   · exact Or.inr ⟨r2, g2, k2, u2, o1⟩
 
 theorem Safe.touched {P : Pods} {K : Key} {u : Uid} {s s' : State} (h : Safe P s) (t : Touched K u s s')
-    (hu : ∀ q, LiveBound P q → keyOf q = K → q.uid = u) : Safe P s' := by
-  refine ⟨fun q hq hd hmem => ?_⟩
-  obtain ⟨r, hr, hk, hqu⟩ := h.own q hq hd hmem
-  rcases t.recs hd.ip with e1 | ⟨r', g', k', u', o'⟩
-  · exact ⟨r, by rw [e1]; exact hr, hk, hqu⟩
-  · rcases o' with o' | ⟨r0, g0, k0⟩
-    · rw [hr] at o'; cases o'
-    · rw [hr] at g0; cases g0
-      exact ⟨r', g', by rw [k', ← k0, hk], by rw [u', hu q hq (by rw [← hk, k0])]⟩
+    (hu : ∀ q, LiveBound P q → keyOf q = K → q.uid = u) (hna : K.isAdmin = false) : Safe P s' := by
+  refine ⟨fun q hq hd hmem => ?_, fun ip r hr => ?_⟩
+  · obtain ⟨r, hr, hk, hqu⟩ := h.own q hq hd hmem
+    rcases t.recs hd.ip with e1 | ⟨r', g', k', u', o'⟩
+    · exact ⟨r, by rw [e1]; exact hr, hk, hqu⟩
+    · rcases o' with o' | ⟨r0, g0, k0⟩
+      · rw [hr] at o'; cases o'
+      · rw [hr] at g0; cases g0
+        exact ⟨r', g', by rw [k', ← k0, hk], by rw [u', hu q hq (by rw [← hk, k0])]⟩
+  · rw [t.frame.admin] at hr
+    obtain ⟨ha, hk⟩ := h.admin ip r hr
+    rcases t.recs ip with e1 | ⟨r', g', k', u', o'⟩
+    · exact ⟨by rw [e1]; exact ha, hk⟩
+    · rcases o' with o' | ⟨r0, g0, k0⟩
+      · rw [ha] at o'; cases o'
+      · rw [ha] at g0; cases g0
+        rw [k0, hna] at hk; cases hk
 
 /-! ### the general shape of a change -/
 
@@ -243,7 +280,7 @@ theorem allocateInSubnetWithKey_chg (s : State) (oldK newK : Key) (n : Subnet) (
           · exact Chg.single ip s.alloc
               ⟨st.frame.pods, st.frame.vPods, st.frame.events, st.frame.nextUid, st.frame.pools, st.frame.nodes,
                st.frame.apps, st.frame.vApps, st.frame.poolObjs, st.frame.vPoolObjs, st.frame.provOn, st.frame.fault,
-               st.frame.pfault, st.frame.clock, st.frame.callsMono⟩
+               st.frame.pfault, st.frame.clock, st.frame.callsMono, st.frame.admin⟩
               (fun j hj => by simp [st.alloc, hj]) ⟨r, hr, hk⟩ ⟨r.assign newK a s.clock, by simp [st.alloc], rfl, rfl⟩
 
 theorem updateAttr_coherent (s : State) (key : Key) (ip : IP) (a : Attr) (h : Coherent s) :
@@ -283,7 +320,7 @@ theorem updateAttr_chg (s : State) (key : Key) (ip : IP) (a : Attr) :
       · exact Chg.single ip s.alloc
           ⟨st.frame.pods, st.frame.vPods, st.frame.events, st.frame.nextUid, st.frame.pools, st.frame.nodes,
            st.frame.apps, st.frame.vApps, st.frame.poolObjs, st.frame.vPoolObjs, st.frame.provOn, st.frame.fault,
-           st.frame.pfault, st.frame.clock, st.frame.callsMono⟩
+           st.frame.pfault, st.frame.clock, st.frame.callsMono, st.frame.admin⟩
           (fun j hj => by simp [st.alloc, hj]) ⟨r, hr, hk'⟩ ⟨r.assign r.key a s.clock, by simp [st.alloc], hk', rfl⟩
 
 /-- after a successful `updateAttr` the address is stored under the key with the new uid -/
